@@ -214,39 +214,26 @@ end SmtpV.Props.C19
 namespace SmtpV.Props.C19
 open SmtpV SmtpV.Wire SmtpV.Server
 
-/-- what is counted when the limit comes back is a prefix of what is buffered -/
-theorem cutAtBdat_prefix : ∀ (fuel : Nat) (buf : Bytes), cutAtBdat fuel buf <+: buf := by
-  intro fuel
-  induction fuel with
-  | zero => intro buf; exact List.prefix_refl _
-  | succ fuel ih =>
-    intro buf
-    unfold cutAtBdat
-    split
-    · exact List.prefix_refl _
-    · rename_i i _
-      have hsplit : buf = buf.take i ++ buf.drop i := (List.take_append_drop i buf).symm
-      have hrec : buf.take i ++ cutAtBdat fuel (buf.drop i) <+: buf := by
-        obtain ⟨t, ht⟩ := ih (buf.drop i)
-        refine ⟨t, ?_⟩
-        rw [List.append_assoc, ht]
-        exact hsplit.symm
-      simp only []
-      split
-      · split
-        · exact List.take_prefix _ _
-        · exact hrec
-      · exact hrec
+/-- **C19_next_chunk_payload_not_counted.**  When the first buffered line is a BDAT command that announces `size` octets, what the
+    server counts as command lines when the limit comes back is that line and — only if the whole payload is buffered already — what
+    is counted of the input behind the payload; the payload itself, whatever it contains and however long its runs without a line
+    feed are, is not counted.  (8853bc2 and its refinement; before, `BDAT 5` | `hello` + `BDAT 3000 LAST` + 3000 x was answered 500.) -/
+theorem C19_next_chunk_payload_not_counted (fuel : Nat) (line after arg a0 : Bytes) (more : List Bytes) (size : Nat)
+    (hend : lfEnd (line ++ after) = some line.length) (hcmd : Parse.parseCmd line = some ("BDAT".b, arg))
+    (hf : Text.fields arg = a0 :: more) (hs : Text.parseUintDec a0 32 = some size) :
+    cutAtBdat (fuel + 1) (line ++ after) =
+      if after.length ≤ size then line else line ++ cutAtBdat fuel (after.drop size) := by
+  conv => lhs; unfold cutAtBdat
+  simp only [hend, List.take_left', List.drop_left', hcmd, beq_self_eq_true, if_true, hf, hs]
 
-/-- **C19_next_chunk_payload_not_counted.**  When the first buffered line is a BDAT command, what the server counts as command
-    lines when the limit comes back is that line and nothing behind it — the payload of the pipelined next chunk, whatever it
-    contains and however long its runs without a line feed are, is not counted (and so cannot trip the limiter: with the BDAT line
-    within the maximum the limiter stays untripped).  Repaired in 8853bc2; before, `BDAT 5` | `hello` + `BDAT 3000 LAST` + 3000 x
-    was answered 500. -/
-theorem C19_next_chunk_payload_not_counted (fuel : Nat) (line payload arg : Bytes)
-    (hend : lfEnd (line ++ payload) = some line.length) (hcmd : Parse.parseCmd line = some ("BDAT".b, arg)) :
-    cutAtBdat (fuel + 1) (line ++ payload) = line := by
-  unfold cutAtBdat
-  simp only [hend, List.take_left', hcmd, beq_self_eq_true, if_true]
+/-- **C19_unusable_bdat_line_counted_on.**  A buffered BDAT line that announces no usable size takes no chunk off the stream when
+    it is executed (it is refused with 501 and nothing is discarded): what follows it is counted like any other input.  (8853bc2
+    had stopped counting at any BDAT line: an over-long line behind `BDAT x` escaped the limit again.) -/
+theorem C19_unusable_bdat_line_counted_on (fuel : Nat) (line after arg a0 : Bytes) (more : List Bytes)
+    (hend : lfEnd (line ++ after) = some line.length) (hcmd : Parse.parseCmd line = some ("BDAT".b, arg))
+    (hf : Text.fields arg = a0 :: more) (hs : Text.parseUintDec a0 32 = none) :
+    cutAtBdat (fuel + 1) (line ++ after) = line ++ cutAtBdat fuel after := by
+  conv => lhs; unfold cutAtBdat
+  simp only [hend, List.take_left', List.drop_left', hcmd, beq_self_eq_true, if_true, hf, hs]
 
 end SmtpV.Props.C19
